@@ -64,6 +64,12 @@ class WriterTables:
             raise AnalysisError("H5Writer.update_field: unexpected signature")
         self.uf_entity, self.uf_attr = params[2], params[3]
         fn = Normalizer(self.p).view(fn0)
+        from .normalize import unroll_row_loops
+        import dataclasses as _dc
+
+        _node, _k = unroll_row_loops(fn.node)  # a dispatch written as a literal row table walked by a for..else
+        if _k:
+            fn = _dc.replace(fn, node=_node)
         attr = self.uf_attr
         writer_methods = set(self.writer.methods)
 
